@@ -202,6 +202,41 @@ def check_frequencies(scn):
     return None
 
 
+def check_dirichlet(scn):
+    """LabelDirichletInjector: alpha maps every class to its concentration; over many draws the class frequencies of the
+    resampled window follow the Dirichlet mean alpha_c / sum(alpha) (6 sigma: Dirichlet variance over the repetitions plus
+    multinomial variance of the draws), whatever order the dictionary lists the classes in; never raises on valid input"""
+    import menelaus.injection as I
+    seed, reps, alpha, as_df = scn["seed"], scn["reps"], [(float(k), v) for k, v in scn["alpha"]], scn["df"]
+    rng = np.random.RandomState(seed)
+    n, lo, hi = 40, 4, 37
+    cls = np.array([0.0, 1.0, 2.0] * 14)[:n]
+    rng.shuffle(cls)
+    a = np.column_stack([rng.randn(n), cls])
+    d = pd.DataFrame(a, columns=["a", "cls"]) if as_df else a
+    a0 = float(sum(v for _, v in alpha))
+    got = {c: 0 for c, _ in alpha}
+    for r in range(reps):
+        np.random.seed(seed * 1000 + r)
+        try:
+            out = I.LabelDirichletInjector()(d, lo, hi, "cls" if as_df else 1, dict(alpha))
+        except Exception as e:
+            return "LabelDirichletInjector raised %s: %s (alpha %r, numpy seed %d)" % (type(e).__name__, e, dict(alpha), seed * 1000 + r)
+        w = arr(out)[lo:hi, 1]
+        for c in got:
+            got[c] += int(np.sum(w == c))
+    N = reps * (hi - lo)
+    for c, v in alpha:
+        m = v / a0
+        var_dir = v * (a0 - v) / (a0 * a0 * (a0 + 1))
+        tol = 6 * math.sqrt(var_dir / reps + m * (1 - m) / N) + 1e-9
+        f = got[c] / N
+        if abs(f - m) > tol:
+            return "LabelDirichletInjector: class %r makes up %.4f of %d resampled rows, alpha %r asks for %.4f on average (+-%.4f)" % (
+                c, f, N, dict(alpha), m, tol)
+    return None
+
+
 REPLAY_F = REPLAY.replace("b_C20.check(", "b_C20.check_frequencies(").replace(
     "injector effect is exactly the documented one", "class frequencies follow the requested probabilities")
 
@@ -215,7 +250,8 @@ def run(tier, seed, repo, focus=None):
                  "window and other columns unchanged, documented effect inside (swap twice = identity, label swap "
                  "involution, join, shift by factor*(alpha+window mean), random walk from x0 with steps 1/sqrt(steps), "
                  "resampled rows come from the window); LabelProbabilityInjector class frequencies over %d repetitions of a 20-row "
-                 "window against the documented law (zero-probability classes never appear; others within 6 sigma); "
+                 "window against the documented law (zero-probability classes never appear; others within 6 sigma); LabelDirichletInjector "
+                 "class frequencies against the Dirichlet mean for dictionaries listing the classes in any order (6 sigma), never raising; "
                  "non-trivial = non-empty window" % (n, 60 if quick else 300), {"n": n})
     known = load_known()
     names = ["FeatureSwapInjector", "FeatureShiftInjector", "LabelSwapInjector", "LabelJoinInjector", "BrownianNoiseInjector",
@@ -258,5 +294,15 @@ def run(tier, seed, repo, focus=None):
             res.count(key=repr(scn), nontrivial=True, check="LabelProbabilityInjector frequencies")
             if msg:
                 res.violation("injector: " + msg, REPLAY_F % dict(verif=VERIF, scn=scn), known)
+    # LabelDirichletInjector: class frequencies follow alpha, whatever the order of the dictionary's keys
+    REPLAY_D = REPLAY_F.replace("b_C20.check_frequencies(", "b_C20.check_dirichlet(")
+    for as_df in (False, True):
+        for alpha in ([(0, 4), (1, 1), (2, 1)], [(2, 30), (0, 1), (1, 3)], [(1, 2), (2, 9), (0, 2)], [(2, 1), (1, 1), (0, 6)],
+                      [(0, 3), (1, 2), (2, 4)]):
+            scn = {"df": as_df, "seed": seed, "reps": reps, "alpha": alpha}
+            msg = check_dirichlet(scn)
+            res.count(key=repr(scn), nontrivial=True, check="LabelDirichletInjector frequencies")
+            if msg:
+                res.violation("injector: " + msg, REPLAY_D % dict(verif=VERIF, scn=scn), known)
     res.sample({"check": "FeatureSwapInjector", "scenario": {"df": True, "lo": 2, "hi": 5, "n": n}})
     return res.finish()
